@@ -31,16 +31,24 @@ def main():
         m=re.search(r'confirm %s(?:-C)?: demo on unchanged rc=(\d+).*demo on changed rc=(\d+)'%pid,txt)
         if m: conf['demo_on_unchanged']='pass' if m.group(1)=='0' else 'FAIL'; conf['demo_on_changed']='fail' if m.group(2)!='0' else 'PASS'
         if engine:
-            # the suite line that follows this change's confirm line
-            i=txt.find('confirm %s-C:'%pid)
-            if i>=0:
-                rest=txt[i:]
-                j=rest.find('confirm ',10)
-                seg=rest if j<0 else rest[:j]
-                m=re.search(r'suite: (.*)',seg)
-                if m: conf['pinned_suite_with_change']=m.group(1)
-                rr=re.findall(r'rerun-alone: (.*)',seg)
-                if rr: conf['failed_stable_tests_rerun_alone_with_change']=sorted(set(rr))
+            # verdict of the pinned suite from this change's own nextest log (same parser as confirm4.sh)
+            lg=f'{src}/confirm_suite.log'
+            if os.path.exists(lg):
+                stable=set(json.load(open('/root/.vp/BASELINE.json'))['stable_pass'])
+                bad=set(); summary=''
+                for l in open(lg, errors='replace'):
+                    m2=re.search(r'^\s*(FAIL|TIMEOUT|SIGABRT|SIGSEGV|SIGKILL|ABORT|LEAK-FAIL)\s*\[.*?\]\s*(?:\(.*?\)\s*)?(\S+)\s+(\S+)', l)
+                    if m2: bad.add(m2.group(2)+'::'+m2.group(3))
+                    if 'Summary' in l: summary=l.strip()
+                failed=sorted(stable & bad)
+                if summary:
+                    conf['pinned_suite_with_change']="stable_pass=%d failed_stable=%s not_passing_total=%d | %s"%(len(stable),failed,len(bad),summary)
+                rr=[]
+                for t in failed:
+                    b,n=t.split('::')[-2],t.split('::')[-1]
+                    ks=[int(k) for k in re.findall(r'rerun-alone: %s %s passed (\d)/3'%(re.escape(b),re.escape(n)),suite)]
+                    if ks: rr.append('%s %s passed %d/3'%(b,n,min(ks)))
+                if rr: conf['failed_stable_tests_rerun_alone_with_change']=rr
         else:
             conf['notes']="the pinned suite does not build these crates (distributed-walrus/ and octopii/ are outside the root crate): compile check = the changed file compiles in the dsim/osim harness build (eval run) and in the demo crate"
         det=e.get('detected_by',[])
